@@ -107,7 +107,7 @@ def compare_image(dump, prow, trows):
 
 def run(ctx):
     ctx.check_theorems("ActsModel.Props.C11")
-    n = 150 if ctx.tier == "quick" else 3000
+    n = 300 if ctx.tier == "quick" else 3000
     scs = []
     for i in range(n):
         for store in ("mem", "sqlite"):
